@@ -231,18 +231,39 @@ func (s *metricSchemaStore) Flush() error {
 	if err != nil {
 		return err
 	}
-	err = s.immutable.WalkEntry(func(key uint32, value *metric.Schema) error {
-		if !value.NeedWrite() {
-			return nil
+	// fields/tag keys can be appended to a schema (it may be in mutable store too) while it is flushing,
+	// so fix what this flush writes under the lock, the rest is written by next flush.
+	type flushEntry struct {
+		schema   *metric.Schema
+		snapshot metric.Schema
+		key      uint32
+	}
+	var entries []flushEntry
+	s.lock.RLock()
+	_ = s.immutable.WalkEntry(func(key uint32, value *metric.Schema) error {
+		if value.NeedWrite() {
+			fields, tagKeys := len(value.Fields), len(value.TagKeys)
+			entries = append(entries, flushEntry{
+				key:    key,
+				schema: value,
+				snapshot: metric.Schema{
+					Fields:  value.Fields[:fields:fields],
+					TagKeys: value.TagKeys[:tagKeys:tagKeys],
+				},
+			})
 		}
-		flusher.Prepare(key)
-		if err0 := flusher.Write(value); err0 != nil {
-			return err0
-		}
-		return flusher.Commit()
+		return nil
 	})
-	if err != nil {
-		return err
+	s.lock.RUnlock()
+
+	for idx := range entries {
+		flusher.Prepare(entries[idx].key)
+		if err = flusher.Write(&entries[idx].snapshot); err != nil {
+			return err
+		}
+		if err = flusher.Commit(); err != nil {
+			return err
+		}
 	}
 	err = flusher.Close()
 	if err != nil {
@@ -250,11 +271,16 @@ func (s *metricSchemaStore) Flush() error {
 	}
 
 	s.lock.Lock()
-	// mark schema persisted
-	_ = s.immutable.WalkEntry(func(_ uint32, value *metric.Schema) error {
-		value.MarkPersisted()
-		return nil
-	})
+	// mark what has been written as persisted
+	for idx := range entries {
+		schema := entries[idx].schema
+		for i := range entries[idx].snapshot.Fields {
+			schema.Fields[i].Persisted = true
+		}
+		for i := range entries[idx].snapshot.TagKeys {
+			schema.TagKeys[i].Persisted = true
+		}
+	}
 	s.immutable = nil
 	s.cache.Purge()
 	s.lock.Unlock()
